@@ -7,6 +7,7 @@ mod semver;
 mod ranges;
 mod terms;
 mod offline;
+mod heapq;
 mod serde_dom;
 mod solver;
 mod solver_replay;
@@ -64,6 +65,7 @@ fn main() {
                 "ranges" | "rangeord" | "rangeq" => ranges::eval(&sx),
                 "terms" | "bitset" => terms::eval(&sx),
                 "offline" => offline::eval(&sx),
+                "heap" => heapq::eval(&sx),
                 "serde" => serde_dom::eval(&sx),
                 "solver" | "faults" => solver::eval(&sx),
                 "report" | "collapse" => report::eval(&sx),
@@ -83,6 +85,7 @@ fn main() {
             "ranges" | "rangeord" | "rangeq" => ranges::generate(&mut out, &mut rng, thorough, domain),
             "terms" | "bitset" => terms::generate(&mut out, &mut rng, thorough, domain),
             "offline" => offline::generate(&mut out, &mut rng, thorough),
+            "heap" => heapq::generate(&mut out, &mut rng, thorough),
             "serde" => serde_dom::generate(&mut out, &mut rng, thorough),
             "solver" | "faults" => solver::generate(&mut out, &mut rng, thorough, domain),
             "report" | "collapse" => report::generate(&mut out, &mut rng, thorough, domain),
